@@ -461,7 +461,8 @@ func runBatch(m Monitor, exe, tier string, seed int64, b, nb int, outdir string,
 			for i := 0; i+8 <= len(ntb); i += 8 {
 				ag.nt[binary.LittleEndian.Uint64(ntb[i:])] = struct{}{}
 			}
-			if werr != nil {
+			if werr != nil && !(m.Race() && strings.Contains(werr.Error(), "exit status 66")) {
+				// (exit status 66 is the race detector's exit code: its reports were collected above)
 				ag.infra = append(ag.infra, fmt.Sprintf("batch %d: child wrote result but exited with %v", b, werr))
 			}
 			mu.Unlock()
